@@ -2,8 +2,8 @@
 from . import core, sexp, dslgen
 from .dslgen import S, T
 
-TYPES = ["user", "group", "doc", "folder", "org", "team"]
-RELS = ["member", "viewer", "editor", "owner", "parent", "admin", "a", "b", "c", "d"]
+TYPES = ["user", "group", "doc", "folder", "org", "team", "Repo"]
+RELS = ["member", "viewer", "editor", "owner", "parent", "admin", "a", "b", "c", "d", "member_all"]
 CONDS = ["condX", "condY"]
 
 
@@ -101,7 +101,10 @@ def gen_graph_model(rng, profile="mixed", max_types=4, max_rels=4, depth=2, wild
             lowest = min(rels[t], key=lambda x: rank[(t, x)])
             u = [1, 1] if r == lowest else tree(t, r, rng.randint(0, depth), [1])
             rl.append([S(r), u])
-            # the tupleset relations must keep their restrictions; others only if they have a direct assignment
+            # the tupleset relations must keep their restrictions; others only if they have a direct assignment.
+            # A relation defined purely by rewrite needs no metadata entry at all (sparse metadata of API-written models)
+            if not has_direct(u) and rng.random() < 0.2:
+                continue
             ml.append([S(r), [directs[(t, r)], [], []]])
         types.append([S(t), rl, [[ml, [], []]] if ml else []])
     cs = []
